@@ -52,6 +52,10 @@ CHECKS = {
             "reference byte-store monitor + conservation diff of every backing array after each store + alias/twin probes + wide-vs-byte metamorphic oracle on the real PCE500Memory and MemoryImage; CPU-facing Rust bus through CoreRuntime::step",
             "Held (modulo listed findings) on every memory configuration x seeded histories of 8/16/24-bit accesses concentrated on region boundaries and 32-bit aliases: reads equal the last write (RAM) or the image (ROM/read-only/absent), stores change only the written locations in ALL backing stores, aliases agree, wide accesses compose little-endian.",
             "Device windows without installed handlers behave as plain memory; reference knows only the applied configuration.", "DESIGN.md 3/C11"),
+    "C12": ("exploration",
+            "online trace checker over per-step observation records of the real PCE500Emulator and CoreRuntime (entry recognised from architectural effects, shadow frame stack for RETI, bounded-progress counter, HALT/OFF clauses) under enumerated and seeded event schedules; hook on _set_isr_bits for the KEYI clause",
+            "Held (modulo listed findings) on all event sequences up to depth 2/3 at all placements in a 10-step window for 3 base programs and on seeded runs of 50-400 steps with timers of period 1-9 cycles, key/ON events and firmware-style IMR/ISR writes: every entry had master+source enable and a pending bit, pushed [IMR,F,PC] frame correct, bit 7 cleared, RETI restored PC/F/IMR/S, eligible requests delivered within 2 boundaries, halted CPUs frozen and woken exactly by status bits.",
+            "Handlers start with NOP so both delivery conventions expose the frame; liveness restated as bounded progress.", "DESIGN.md 3/C12"),
     "C13": ("exploration",
             "reference-arithmetic monitor + cross-core comparison on every tick of the real TimerScheduler.advance and TimerContext::tick_timers; icontract postcondition on advance()",
             "Held on all period pairs 0..12 x 0..12 x enabled, sampled large periods, every-cycle and gap sequences with resets and snapshot/restore points: fire pattern, next targets strictly in the future, ISR bits, exactly-once on every-cycle sequences, Python == Rust.",
